@@ -1233,12 +1233,13 @@ def bs_lookback_price(
     m2 = d2(s - m, t, v)
 
     # when max < strike
+    w = v * t.sqrt()
     price_0 = spot * (
-        ncdf(d1_value) + v * t.sqrt() * (d1_value * ncdf(d1_value) + npdf(d1_value))
+        ncdf(d1_value) + (s + w.square() / 2) * ncdf(d1_value) + w * npdf(d1_value)
     ) - strike * ncdf(d2_value)
     # when max >= strike
     price_1 = (
-        spot * (ncdf(m1) + v * t.sqrt() * (m1 * ncdf(m1) + npdf(m1)))
+        spot * (ncdf(m1) + (s - m + w.square() / 2) * ncdf(m1) + w * npdf(m1))
         - strike
         + max * (1 - ncdf(m2))
     )
